@@ -32,6 +32,8 @@ ASSUMPTIONS = [
     "sub-expression is a valid non-principal z-th power and substituting it reproduces the observed matrix) is reported under the separate "
     "clause fractional-pow-branch.",
     "Exp with num_steps (Trotter approximation) is not compared exactly (C58).",
+    "simplify() drops Pauli words with |coefficient| <= 1e-8 at every level (PauliSentence.prune, documented threshold): a simplify mismatch "
+    "below 1e-6 that vanishes when the expression is re-simplified with that threshold set to 0 is accepted (label simplify:pruned-below-1e-8).",
     "Two explicit refusals are rejections, not violations: LinearCombination @ LinearCombination on shared wires (ValueError of "
     "LinearCombination.__matmul__, only reachable through the @ dunder) and qp.map_wires of an expression containing HilbertSchmidt / "
     "LocalHilbertSchmidt (its map_wires only raises NotImplementedError); matrix and simplify are still compared for the latter.",
@@ -328,7 +330,7 @@ def _branch_variant(e, observed, order):
     chains = opalg.power_chains(e)[:3]
     if not chains:
         return None
-    cands = []
+    cands, built = [], []
     for root, inner, z in chains:
         try:
             A, aw = opalg.evaluate(inner, _leaf_fallback)
@@ -340,16 +342,40 @@ def _branch_variant(e, observed, order):
                   lambda: zoo_extra.build(_eager(root)),  # noqa: B023
                   lambda: qp.simplify(zoo_extra.build(root)),  # noqa: B023
                   lambda: qp.prod(*reversed(zoo_extra.build(root).decomposition())))  # noqa: B023
-        opts = []
+        opts, every = [], []
         for mk in makers:
             try:
                 c = mk()
                 C = np.asarray(qp.matrix(c, wire_order=aw) if aw else qp.matrix(c), dtype=complex)
             except Exception:  # noqa: BLE001
                 continue
+            if not any(np.allclose(C, o, atol=1e-9) for o in every):
+                every.append(C)
             if opalg.is_other_branch(C, A, z, P) and not any(np.allclose(C, o, atol=1e-9) for o in opts):
                 opts.append(C)
         cands.append(opts)
+        built.append(every)
+    # Nested chains (a fractional power inside the base of another one, e.g. pow(ctrl(prod(pow(GlobalPhase(4pi), 0.25))), 0.25)): the
+    # inner chain's value on PennyLane's branch changes the matrix the outer power is taken of (possibly onto the cut, where no principal
+    # value is covered), so PennyLane's values of the outer chain are tested again as powers of that changed base.
+    for i, (root_i, inner_i, z_i) in enumerate(chains):
+        for j, (root_j, _, _) in enumerate(chains):
+            if i == j or not _contains(inner_i, root_j):
+                continue
+            for cj in list(cands[j]):
+                ov = {id(root_j): cj}
+                try:
+                    A2, _ = opalg.evaluate(inner_i, _leaf_fallback, ov)
+                except opalg.BranchCut:
+                    continue
+                try:
+                    P2 = opalg.evaluate(root_i, _leaf_fallback, ov)[0]
+                except opalg.BranchCut:
+                    P2 = None
+                for C in built[i]:
+                    ref = P2 if P2 is not None and P2.shape == C.shape else np.full(C.shape, np.nan)
+                    if opalg.is_other_branch(C, A2, z_i, ref) and not any(np.allclose(C, o, atol=1e-9) for o in cands[i]):
+                        cands[i].append(C)
     for combo in itertools.product(*[[None] + o for o in cands]):
         ov = {id(ch[0]): c for ch, c in zip(chains, combo) if c is not None}
         if not ov:
@@ -363,11 +389,48 @@ def _branch_variant(e, observed, order):
     return None
 
 
+def _contains(x, node):
+    """Is `node` (by identity) a sub-expression of the spec x?"""
+    if x is node:
+        return True
+    if not isinstance(x, dict):
+        return False
+    kids = [x[k] for k in ("base", "compute", "target", "uncompute") if isinstance(x.get(k), dict)] + list(x.get("operands") or [])
+    return any(_contains(k, node) for k in kids)
+
+
 def _eager(s):
     """The power chain with every node eager (lazy=False)."""
     if isinstance(s, dict) and s.get("op") in ("pow", "adjoint"):
         return {**s, "lazy": False, "base": _eager(s["base"])}
     return s
+
+
+PRUNE_SLACK = 1e-6  # at most ~100 dropped Pauli words of weight <= 1e-8 each
+
+
+def _pruning_explains(e, observed, R, order, times):
+    """Every simplify() of the arithmetic classes drops the Pauli words of an operator's Pauli representation whose coefficient is at most
+    1e-8 (PauliSentence.prune(tol=1e-8), documented there), at every nesting level and before like terms are collected: e.g. the three
+    cross terms -1e-8 * X of (-0.25 X + 0.0002 I(3) + 0.0 * Hermitian)**3 are dropped one by one, a deviation of 3e-8. Such a deviation is
+    not a violation: a small mismatch (<= PRUNE_SLACK, relative to max(1, |R|)) is accepted iff it disappears completely when the expression
+    is rebuilt and simplified with that threshold set to 0 (simplify mutates the cached pauli_rep in place, hence the rebuild)."""
+    import pennylane as qp
+    from pennylane.pauli import PauliSentence
+
+    if not _close(observed, R, PRUNE_SLACK):
+        return False
+    orig = PauliSentence.prune
+    PauliSentence.prune = lambda self, tol=0.0: orig(self, 0.0)
+    try:
+        S = zoo_extra.build(e)
+        for _ in range(times):
+            S = qp.simplify(S)
+        return _close(_qmatrix(S, order), R)
+    except Exception:  # noqa: BLE001
+        return False
+    finally:
+        PauliSentence.prune = orig
 
 
 def _lincomb_matmul(s):
@@ -436,11 +499,15 @@ def check(spec):
     S = qp.simplify(op)
     MS = _qmatrix(S, order) if set(S.wires) <= set(order) else None
     if MS is None or not _close(MS, R):
-        raise _mismatch("simplify", e, MS, order, f"expr={e} built={op!r} simplified={S!r} diff={None if MS is None else maxdiff(MS, R)}", sig, feats)
+        if MS is None or not _pruning_explains(e, MS, R, order, 1):
+            raise _mismatch("simplify", e, MS, order, f"expr={e} built={op!r} simplified={S!r} diff={None if MS is None else maxdiff(MS, R)}", sig, feats)
+        labels.append("simplify:pruned-below-1e-8")
     S2 = qp.simplify(S)
     MS2 = _qmatrix(S2, order)
     if not _close(MS2, R):
-        raise _mismatch("simplify-twice", e, MS2, order, f"expr={e} simplified={S!r} again={S2!r} diff={maxdiff(MS2, R)}", sig, feats)
+        if not _pruning_explains(e, MS2, R, order, 2):
+            raise _mismatch("simplify-twice", e, MS2, order, f"expr={e} simplified={S!r} again={S2!r} diff={maxdiff(MS2, R)}", sig, feats)
+        labels.append("simplify:pruned-below-1e-8")
     try:
         idem = bool(qp.equal(S, S2))
     except Exception:  # noqa: BLE001
